@@ -8,6 +8,12 @@
  *   SHIM_FAULT=<class>:<k>:<errno>   fail the k-th (1-based) call of the class on a *data* descriptor.
  *                              classes: write pwrite ftruncate fsync msync read pread open mkstemp
  *                                       fwrite fread fflush fclose fseek rewind
+ *                              errno -1 ("SHORT") on write/pwrite/read/pread: the k-th call transfers only half of what was
+ *                              asked (a hard-coded short transfer at an exact call, for the retry loops' callers).
+ *                              Optional 4th field <hexoffset>: only calls whose return address is <main executable base +
+ *                              offset> are counted (fault enumeration focused on one call site).
+ *   SHIM_SITES=1               log `SITE <class> <module> <hexoffset> <count>` per calling site at exit; `FIRED` lines
+ *                              carry the module and offset of the faulted call (resolved with addr2line by the check).
  *   SHIM_TRANSIENT=<seed>:<pEINTR>:<pSHORT>   percentages; read/write/pread/pwrite on data descriptors
  *                              randomly return EINTR or transfer fewer bytes than asked.
  *   SHIM_TRACE_DIR=<dir> SHIM_TRACE_PATH=<suffix>   C09: every open/ftruncate/write/pwrite/mmap/munmap/
@@ -26,6 +32,7 @@
  */
 #define _GNU_SOURCE
 #include <dlfcn.h>
+#include <link.h>
 #include <errno.h>
 #include <fcntl.h>
 #include <stdarg.h>
@@ -48,6 +55,13 @@ static int inited = 0;
 static int log_fd = -1;
 static int fault_cls = -1, fault_errno = EIO;
 static long fault_k = -1;
+static unsigned long fault_site = 0;     /* 0 = any site */
+static int sites_on = 0;
+static unsigned long exe_base = 0;
+#define MAXSITES 2048
+static struct { int cls; unsigned long pc; long n; } sites[MAXSITES];
+static int nsites = 0;
+static volatile int sites_lock = 0;
 static int tr_on = 0;
 static unsigned long long tr_seed = 0;
 static int tr_peintr = 0, tr_pshort = 0;
@@ -84,10 +98,17 @@ static void init(void) {
   if (f) {
     char name[32];
     long k; int e;
-    if (sscanf(f, "%31[^:]:%ld:%d", name, &k, &e) == 3) {
+    unsigned long site = 0;
+    if (sscanf(f, "%31[^:]:%ld:%d:%lx", name, &k, &e, &site) >= 3) {
       for (int i = 0; i < C_N; ++i) if (!strcmp(name, kNames[i])) fault_cls = i;
-      fault_k = k; fault_errno = e;
+      fault_k = k; fault_errno = e; fault_site = site;
     }
+  }
+  sites_on = getenv("SHIM_SITES") != NULL;
+  {
+    /* load base of the main executable = first object reported by dl_iterate_phdr */
+    extern int shim_phdr_cb(struct dl_phdr_info *, size_t, void *);
+    dl_iterate_phdr(shim_phdr_cb, NULL);
   }
   const char *t = getenv("SHIM_TRANSIENT");
   if (t && sscanf(t, "%llu:%d:%d", &tr_seed, &tr_peintr, &tr_pshort) == 3) tr_on = 1;
@@ -117,15 +138,60 @@ static int is_data_fd(int fd) {
   return !excluded_path(path);
 }
 
-/* returns 1 when this call must fail with fault_errno */
-static int hit(int cls) {
+int shim_phdr_cb(struct dl_phdr_info *info, size_t size, void *data) {
+  (void)size; (void)data;
+  exe_base = (unsigned long)info->dlpi_addr;
+  return 1;   /* stop after the first object: the executable */
+}
+
+static void site_desc(unsigned long pc, char *mod, size_t modlen, unsigned long *off) {
+  Dl_info di;
+  if (dladdr((void *)pc, &di) && di.dli_fbase) {
+    const char *b = di.dli_fname ? strrchr(di.dli_fname, '/') : NULL;
+    snprintf(mod, modlen, "%s", (unsigned long)di.dli_fbase == exe_base ? "exe" : (b ? b + 1 : "?"));
+    *off = pc - (unsigned long)di.dli_fbase;
+  } else {
+    snprintf(mod, modlen, "?");
+    *off = pc;
+  }
+}
+
+static void site_count(int cls, unsigned long pc) {
+  while (__sync_lock_test_and_set(&sites_lock, 1)) {}
+  int i;
+  for (i = 0; i < nsites; ++i) if (sites[i].cls == cls && sites[i].pc == pc) break;
+  if (i == nsites && nsites < MAXSITES) { sites[i].cls = cls; sites[i].pc = pc; sites[i].n = 0; ++nsites; }
+  if (i < nsites) ++sites[i].n;
+  __sync_lock_release(&sites_lock);
+}
+
+/* returns 1 when this call must fail with fault_errno (or be shortened when fault_errno == -1) */
+static int hit_pc(int cls, unsigned long pc) {
   init();
-  long n = __sync_add_and_fetch(&counts[cls], 1);
+  if (sites_on) site_count(cls, pc);
+  long n;
+  if (fault_site) {
+    static long focus_n;
+    if (cls != fault_cls || pc - exe_base != fault_site) { __sync_add_and_fetch(&counts[cls], 1); return 0; }
+    __sync_add_and_fetch(&counts[cls], 1);
+    n = __sync_add_and_fetch(&focus_n, 1);
+  } else {
+    n = __sync_add_and_fetch(&counts[cls], 1);
+  }
   if (cls == fault_cls && n == fault_k) {
-    logf_fd(log_fd, "FIRED %s %ld %d\n", kNames[cls], n, fault_errno);
+    char mod[64]; unsigned long off;
+    site_desc(pc, mod, sizeof(mod), &off);
+    logf_fd(log_fd, "FIRED %s %ld %d %s %lx\n", kNames[cls], n, fault_errno, mod, off);
     return 1;
   }
   return 0;
+}
+#define hit(cls) hit_pc((cls), (unsigned long)__builtin_return_address(0))
+/* for the data calls: 0 = go on, 1 = fail with errno, 2 = transfer only *len bytes */
+static int fault_kind(int cls, unsigned long pc, size_t *len) {
+  if (!hit_pc(cls, pc)) return 0;
+  if (fault_errno == -1) { if (*len >= 2) *len = *len / 2; return 2; }
+  return 1;
 }
 
 static unsigned long long mix(unsigned long long x) {
@@ -160,6 +226,11 @@ __attribute__((destructor)) static void fin(void) {
   if (log_fd < 0) return;
   for (int i = 0; i < C_N; ++i) logf_fd(log_fd, "COUNT %s %ld\n", kNames[i], counts[i]);
   if (tr_on) logf_fd(log_fd, "TRANSIENT eintr=%ld short=%ld\n", tr_eintr, tr_short);
+  if (sites_on) for (int i = 0; i < nsites; ++i) {
+    char mod[64]; unsigned long off;
+    site_desc(sites[i].pc, mod, sizeof(mod), &off);
+    logf_fd(log_fd, "SITE %s %s %lx %ld\n", kNames[sites[i].cls], mod, off, sites[i].n);
+  }
 }
 
 /* ------------------------------------------------------------------ C09 trace helpers */
@@ -217,15 +288,17 @@ ssize_t write(int fd, const void *b, size_t n) {
     return r;
   }
   if (!is_data_fd(fd)) return real_write(fd, b, n);
-  if (hit(C_WRITE)) { errno = fault_errno; return -1; }
   size_t len = n;
+  int fk = fault_kind(C_WRITE, (unsigned long)__builtin_return_address(0), &len);
+  if (fk == 1) { errno = fault_errno; return -1; }
+  if (fk == 2) return real_write(fd, b, len);
   int t = transient(C_WRITE, &len);
   if (t == 1) { errno = EINTR; return -1; }
   return real_write(fd, b, len);
 }
 
 typedef ssize_t (*pwrite_t)(int, const void *, size_t, off_t);
-static ssize_t pwrite_common(int fd, const void *b, size_t n, off_t o) {
+static ssize_t pwrite_common(int fd, const void *b, size_t n, off_t o, unsigned long pc) {
   REAL(pwrite, pwrite_t);
   init();
   if (traced(fd)) {
@@ -235,43 +308,49 @@ static ssize_t pwrite_common(int fd, const void *b, size_t n, off_t o) {
     return r;
   }
   if (!is_data_fd(fd)) return real_pwrite(fd, b, n, o);
-  if (hit(C_PWRITE)) { errno = fault_errno; return -1; }
   size_t len = n;
+  int fk = fault_kind(C_PWRITE, pc, &len);
+  if (fk == 1) { errno = fault_errno; return -1; }
+  if (fk == 2) return real_pwrite(fd, b, len, o);
   int t = transient(C_PWRITE, &len);
   if (t == 1) { errno = EINTR; return -1; }
   return real_pwrite(fd, b, len, o);
 }
-ssize_t pwrite(int fd, const void *b, size_t n, off_t o) { return pwrite_common(fd, b, n, o); }
-ssize_t pwrite64(int fd, const void *b, size_t n, off_t o) { return pwrite_common(fd, b, n, o); }
+ssize_t pwrite(int fd, const void *b, size_t n, off_t o) { return pwrite_common(fd, b, n, o, (unsigned long)__builtin_return_address(0)); }
+ssize_t pwrite64(int fd, const void *b, size_t n, off_t o) { return pwrite_common(fd, b, n, o, (unsigned long)__builtin_return_address(0)); }
 
 typedef ssize_t (*read_t)(int, void *, size_t);
 ssize_t read(int fd, void *b, size_t n) {
   REAL(read, read_t);
   init();
   if (!is_data_fd(fd)) return real_read(fd, b, n);
-  if (hit(C_READ)) { errno = fault_errno; return -1; }
   size_t len = n;
+  int fk = fault_kind(C_READ, (unsigned long)__builtin_return_address(0), &len);
+  if (fk == 1) { errno = fault_errno; return -1; }
+  if (fk == 2) return real_read(fd, b, len);
   int t = transient(C_READ, &len);
   if (t == 1) { errno = EINTR; return -1; }
   return real_read(fd, b, len);
 }
 
 typedef ssize_t (*pread_t)(int, void *, size_t, off_t);
-static ssize_t pread_common(int fd, void *b, size_t n, off_t o) {
+static ssize_t pread_common(int fd, void *b, size_t n, off_t o, unsigned long pc) {
   REAL(pread, pread_t);
   init();
   if (!is_data_fd(fd)) return real_pread(fd, b, n, o);
-  if (hit(C_PREAD)) { errno = fault_errno; return -1; }
   size_t len = n;
+  int fk = fault_kind(C_PREAD, pc, &len);
+  if (fk == 1) { errno = fault_errno; return -1; }
+  if (fk == 2) return real_pread(fd, b, len, o);
   int t = transient(C_PREAD, &len);
   if (t == 1) { errno = EINTR; return -1; }
   return real_pread(fd, b, len, o);
 }
-ssize_t pread(int fd, void *b, size_t n, off_t o) { return pread_common(fd, b, n, o); }
-ssize_t pread64(int fd, void *b, size_t n, off_t o) { return pread_common(fd, b, n, o); }
+ssize_t pread(int fd, void *b, size_t n, off_t o) { return pread_common(fd, b, n, o, (unsigned long)__builtin_return_address(0)); }
+ssize_t pread64(int fd, void *b, size_t n, off_t o) { return pread_common(fd, b, n, o, (unsigned long)__builtin_return_address(0)); }
 
 typedef int (*ftruncate_t)(int, off_t);
-static int ftruncate_common(int fd, off_t l) {
+static int ftruncate_common(int fd, off_t l, unsigned long pc) {
   REAL(ftruncate, ftruncate_t);
   init();
   if (traced(fd)) {
@@ -281,11 +360,11 @@ static int ftruncate_common(int fd, off_t l) {
     return r;
   }
   if (!is_data_fd(fd)) return real_ftruncate(fd, l);
-  if (hit(C_FTRUNCATE)) { errno = fault_errno; return -1; }
+  if (hit_pc(C_FTRUNCATE, pc)) { errno = fault_errno; return -1; }
   return real_ftruncate(fd, l);
 }
-int ftruncate(int fd, off_t l) { return ftruncate_common(fd, l); }
-int ftruncate64(int fd, off_t l) { return ftruncate_common(fd, l); }
+int ftruncate(int fd, off_t l) { return ftruncate_common(fd, l, (unsigned long)__builtin_return_address(0)); }
+int ftruncate64(int fd, off_t l) { return ftruncate_common(fd, l, (unsigned long)__builtin_return_address(0)); }
 
 typedef int (*fsync_t)(int);
 int fsync(int fd) {
@@ -384,7 +463,7 @@ int close(int fd) {
 }
 
 typedef int (*open_t)(const char *, int, ...);
-static int open_common(const char *path, int flags, mode_t mode) {
+static int open_common(const char *path, int flags, mode_t mode, unsigned long pc) {
   REAL(open, open_t);
   init();
   if (path_matches(path) && (flags & (O_WRONLY | O_RDWR))) {
@@ -401,18 +480,18 @@ static int open_common(const char *path, int flags, mode_t mode) {
     }
     return r;
   }
-  if (path && !excluded_path(path) && hit(C_OPEN)) { errno = fault_errno; return -1; }
+  if (path && !excluded_path(path) && hit_pc(C_OPEN, pc)) { errno = fault_errno; return -1; }
   return real_open(path, flags, mode);
 }
 int open(const char *path, int flags, ...) {
   mode_t mode = 0;
   if (flags & (O_CREAT | O_TMPFILE)) { va_list ap; va_start(ap, flags); mode = va_arg(ap, mode_t); va_end(ap); }
-  return open_common(path, flags, mode);
+  return open_common(path, flags, mode, (unsigned long)__builtin_return_address(0));
 }
 int open64(const char *path, int flags, ...) {
   mode_t mode = 0;
   if (flags & (O_CREAT | O_TMPFILE)) { va_list ap; va_start(ap, flags); mode = va_arg(ap, mode_t); va_end(ap); }
-  return open_common(path, flags, mode);
+  return open_common(path, flags, mode, (unsigned long)__builtin_return_address(0));
 }
 
 typedef FILE *(*fopen_t)(const char *, const char *);
